@@ -313,6 +313,22 @@ func liqGens() []OpGen {
 			}
 			return w.TxEvent("liq.keeper_msg", a, &liqtypes.MsgLiquidateInternalKeeperRequest{From: a.Bech(), LiqType: 0, Id: id})
 		}},
+		// anybody may top up the app's reserve for the debt asset; auctions that run out of collateral draw on it
+		{"reserve.fund", 2, func(w *World, r *Rng) *Event {
+			if w.Cdp == nil || w.Cdp.Debt == nil {
+				return nil
+			}
+			for tries := 0; tries < 5; tries++ {
+				a := w.Actors[r.Intn(len(w.Actors))]
+				bal := w.Bal(a.Addr, w.Cdp.Debt.Denom)
+				if bal.LT(sdk.NewInt(1000)) {
+					continue
+				}
+				amt := bal.MulRaw(r.Range(5, 60)).QuoRaw(100)
+				return w.TxEvent("reserve.fund", a, liqtypes.NewMsgAppReserveFundsRequest(a.Bech(), w.Cdp.AppID, w.Cdp.Debt.ID, sdk.NewCoin(w.Cdp.Debt.Denom, amt)))
+			}
+			return nil
+		}},
 		{"bid.dutch", 14, func(w *World, r *Rng) *Event {
 			as := w.App.NewaucKeeper.GetAuctions(w.Ctx())
 			var dutch []auctionsV2types.Auction
@@ -416,6 +432,7 @@ type c10Oracle struct {
 		debtPrice               uint64
 		collDec, debtDec        sdk.Int
 		collectorDebt, supply   sdk.Int
+		reserveDebt             sdk.Int
 		keeperDebt              sdk.Int
 		sameOwnerBidder         bool
 		keeperIsBidder          bool
@@ -482,6 +499,7 @@ func (o *c10Oracle) Before(w *World, ev *Event) {
 		o.pre.ownerColl = sdk.ZeroInt()
 	}
 	o.pre.collectorDebt = w.ModBal("collectorV1", au.DebtToken.Denom)
+	o.pre.reserveDebt = w.ModBal(liqtypes.ModuleName, au.DebtToken.Denom)
 	o.pre.supply = w.Supply(au.DebtToken.Denom)
 	o.pre.keeperDebt = sdk.ZeroInt()
 	o.pre.keeperIsBidder = false
@@ -537,6 +555,30 @@ func (o *c10Oracle) After(w *World, ev *Event, res Result) *Violation {
 	paid := o.pre.bidderDebt.Sub(w.Bal(bidder, au.DebtToken.Denom))
 	got := w.Bal(bidder, au.CollateralToken.Denom).Sub(o.pre.bidderColl)
 	w.Stats.Probe("c10.bid_checked")
+	// over the life of the auction: what all bidders paid plus what the app reserve added never exceeds the target debt
+	fromReserve := o.pre.reserveDebt.Sub(w.ModBal(liqtypes.ModuleName, au.DebtToken.Denom))
+	if !o.pre.keeperIsBidder && !o.pre.sameOwnerBidder {
+		prev, ok := o.paid[au.AuctionId]
+		if !ok {
+			prev = sdk.ZeroInt()
+		}
+		tot := prev.Add(paid)
+		if fromReserve.IsPositive() {
+			w.Stats.Probe("c10.reserve_topped_up_auction")
+			if prev.IsPositive() {
+				w.Stats.Probe("c10.reserve_topped_up_after_partial_bids")
+			}
+			tot = tot.Add(fromReserve)
+		}
+		o.paid[au.AuctionId] = tot
+		if tot.GT(lv.TargetDebt.Amount) {
+			return &Violation{Property: "C10", OracleID: "c10.bid_total", Signature: "collected_more_than_target",
+				Detail: fmt.Sprintf("auction %d: bidders have paid %s in total, the app reserve added %s with this bid, together %s > target debt %s", au.AuctionId, prev.Add(paid), fromReserve, tot, lv.TargetDebt.Amount)}
+		}
+	} else {
+		// payments that cannot be separated from refunds/incentives: stop the running total for this auction
+		o.paid[au.AuctionId] = lv.TargetDebt.Amount.Neg()
+	}
 	_, stillLive := func() (auctionsV2types.Auction, bool) {
 		a, err := w.App.NewaucKeeper.GetAuction(ctx, au.AuctionId)
 		return a, err == nil
